@@ -32,7 +32,7 @@ ASSUMPTIONS = ["per-target expectation = the library's own root merge of indepen
 REACH = [("yamlpath/merger/merger.py", "_insert_dict,_insert_list,_insert_set,_insert_scalar,_get_merge_target_nodes,merge_with,_replace_merge_target", "Merger._insert_* / _get_merge_target_nodes / merge_with"),
          ("yamlpath/merger/mergerconfig.py", "get_insertion_point", "MergerConfig.get_insertion_point")]
 SIZES = {"quick": 30000, "thorough": 800000}
-REQUIRED_COUNTERS = ["traversal_mergeat_cases", "existing_single", "existing_multiple", "created", "uncreatable"]
+REQUIRED_COUNTERS = ["cli_uncreatable_cases", "traversal_mergeat_cases", "existing_single", "existing_multiple", "created", "uncreatable"]
 SAMPLE = [("deep", "all", "all", "unique"), ("deep", "unique", "deep", "unique"), ("right", "right", "right", "right"),
           ("left", "left", "left", "left"), ("deep", "right", "unique", "left"), ("right", "all", "deep", "unique")]
 
@@ -184,8 +184,49 @@ def dotted_keys(rng, t, depth=0):
     return ("map", items)
 
 
+def cli_uncreatable_case(ctx, rng, workdir):
+    """yaml-merge --mergeat on a path that one left-hand document can neither match nor create: the run must fail and
+    must not write anything out - also when OTHER left-hand documents of a multi-document file would have merged."""
+    import os
+    from vf.mon import cli
+    os.makedirs(workdir, exist_ok=True)
+    good = ["a:\n  b: {}\n", "a:\n  b:\n    k: 1\nz: 2\n", "a: {}\n"]
+    bad = ["a: 5\n", "a: text\nz: 1\n", "a: true\n"]
+    ndocs = rng.choice([1, 2, 3])
+    docs = [rng.choice(good) for _ in range(ndocs)]
+    ibad = rng.randrange(ndocs)
+    docs[ibad] = rng.choice(bad)
+    mode = rng.choice(["matrix_merge", "merge_across"]) if ndocs > 1 else rng.choice(["condense_all", "matrix_merge", "merge_across"])
+    rdocs = ["x: 1\n"] if mode != "merge_across" else ["x: %d\n" % i for i in range(ndocs)]
+    lf, rf, out = (os.path.join(workdir, n) for n in ("l.yaml", "r.yaml", "out.yaml"))
+    with open(lf, "w") as f:
+        f.write("".join("---\n" + d for d in docs))
+    with open(rf, "w") as f:
+        f.write("".join("---\n" + d for d in rdocs))
+    if os.path.exists(out):
+        os.unlink(out)
+    to_file = rng.random() < 0.6
+    argv = ["-S", "-M", mode, "-m", "/a/b/c"] + (["-o", out] if to_file else []) + [lf, rf]
+    case = {"tool": "yaml-merge", "left_documents": docs, "right_documents": rdocs, "argv": argv[:-2], "failing_document": ibad}
+    r = cli.run("yaml_merge", argv, sandbox=workdir)
+    ctx.evaluations += 1
+    ctx.counters["cli_uncreatable_cases"] = ctx.counters.get("cli_uncreatable_cases", 0) + 1
+    ctx.mark_nontrivial(["cli-uncreatable", docs, rdocs, mode, to_file])
+    if r["exc"]:
+        ctx.violation("cli/crash", {"case": case, "summary": r["exc"][:200]})
+    elif r["code"] == 0:
+        ctx.violation("cli/exit-0-although-a-target-cannot-be-created/%s" % mode, {"case": case, "summary": "stdout %r" % r["out"][:150]})
+    elif to_file and os.path.exists(out):
+        ctx.violation("cli/partial-write-out/%s" % mode, {"case": case, "summary": "output file written: %r" % open(out).read()[:150]})
+    elif not to_file and r["out"].replace("Please try --help for more information.", "").strip():
+        ctx.violation("cli/partial-write-out/%s" % mode, {"case": case, "summary": "stdout %r" % r["out"][:150]})
+
+
 def run_shard(ctx):
     rng = ctx.rng
+    import os
+    for _ in range(12 if ctx.tier == "quick" else 200):
+        cli_uncreatable_case(ctx, rng, os.path.join(os.environ.get("VF_WORKDIR", "/dev/shm"), "c11-%d" % ctx.shard))
     want = SIZES[ctx.tier] // ctx.nshards
     n = 0
     while ctx.evaluations < want:
